@@ -54,7 +54,11 @@ def run(ctx):
                 "departure; W2 simultaneous first joins: one founder, all members, each joiner's 353 + JOIN lines form one total "
                 "order; W3 +l limit never exceeded (snapshots during the storm), exactly L members and K-L 471s; W4 pipelined "
                 "numbered PRIVMSGs/PINGs: replies in command order, per (sender, receiver) strictly increasing without gap or "
-                "duplicate, prefixes true; W5 random churn bursts: invariants I1-I8 at quiescence, every connection answers; "
+                "duplicate, prefixes true; W5 random churn bursts: invariants I1-I8 at quiescence, every connection answers; W7 "
+                "pipelined floods to a prompt and to a late-draining reader; W8 a connection with a 4 KiB receive buffer pipelines "
+                "300-800 NAMES/LIST commands with ~230-name lists and reads nothing (the server's own counters show its handler "
+                "waiting for the socket): four rounds of JOIN / PRIVMSG / TOPIC / fresh registration by others must be answered "
+                "within 12 s each, then the slow one reads every reply, complete and in command order; "
                 "distinct = workload classes; evidence lists distinct winners and reconstructed orders")
     res.floor("rounds", res.evaluations, 400 if ctx.quick else 2000)
     res.floor("distinct_orders_and_interleavings", orders, 4)
